@@ -3,7 +3,7 @@ From Coq Require Import List Arith Lia Bool Permutation.
 From Kiki Require Import Base.Ord Base.Chars Data Oset.Model Lex.Model LR.Driver LR.Grammar LR.Inv LR.Complete LR.Sound LR.ErrPos LR.Viable LR.Least LR.CanonLR1 LR.CanonAgree LR.FirstExact
   LR.Validate LR.ValidateProofs Front.Parse Front.FrontProofs Ast.Validate Ast.WF Ast.ValidateProofs Ast.VWF Ast.Truthful
   Build.Machine Build.DetProofs Build.Table Build.TableProofs Build.FillProofs Build.TableSpec Build.GenCorrect Np Build.NoPanic
-  Emit.Emit Emit.EmitProofs Emit.Hash Emit.HashProofs Emit.Parser Emit.NoPanic Ast.TypeText Front.TypeTokens Front.TypeSource Pipeline.
+  Emit.Emit Emit.EmitProofs Emit.TypedefSpec Emit.ModuleShape Emit.AttrsOnly Emit.Hash Emit.HashProofs Emit.Parser Emit.NoPanic Ast.TypeText Front.TypeTokens Front.TypeSource Pipeline.
 From Kiki Require Gen.Template.
 Import ListNotations.
 
@@ -291,4 +291,44 @@ Proof.
   apply bind_ok in H as (text' & Ht & H). injection H as _ <-.
   unfold table_to_rust in Ht. apply bind_ok in Ht as (nm & _ & Ht). apply bind_ok in Ht as (env & Henv & Hfill).
   apply (HashProofs.template_roundtrip _ env text' digest HashProofs.current_template_header_ok Hfill (hole_env_digest _ _ _ _ _ _ Henv) Hd).
+Qed.
+
+(* C06: what the module emitted for any accepted source declares, after its header *)
+Theorem generate_module_declares ho digest src text :
+  generate_model ho digest src = Ok text ->
+  exists v nm defs pre c rest,
+    front_end src = Ok v /\
+    Forall2 (fun n d => typedef_spec v n = Some d) (vf_nts v) defs /\
+    let P := n_parse_type_param nm in let tenum := vt_name (vf_tenum v) in
+    text = (pre ++ attributes_src (vt_attrs (vf_tenum v)) ++ S_ "pub enum " ++ tenum ++ S_ " {
+" ++ indent 1 (terminal_enum_variants_src v) ++ S_ "
+}
+
+" ++ join (nl ++ nl) defs ++ c ++ S_ "pub fn parse<" ++ P ++ S_ ">(src: " ++ P ++ S_ ") -> Result<" ++ vf_start v ++ S_ ", Option<" ++ tenum ++ S_ ">>
+where " ++ P ++ S_ ": IntoIterator<Item = " ++ tenum ++ S_ "> {" ++ rest)%list.
+Proof.
+  unfold generate_model, generate_full. intros H.
+  apply bind_ok in H as ([out tx] & H & E). injection E as <-.
+  apply bind_ok in H as (v & Hv & H). apply bind_ok in H as ([m rt] & _ & H). apply bind_ok in H as (t & _ & H).
+  apply bind_ok in H as (text' & Ht & H). injection H as _ <-.
+  destruct (emitted_module_declares _ _ _ _ _ _ Ht) as (nm & defs & pre & c & rest & _ & Hd & Htext).
+  exists v, nm, defs, pre, c, rest. split; [exact Hv|]. split; [exact Hd|exact Htext].
+Qed.
+
+(* C12 "and nowhere else": the emitted text of an accepted source is the text the emitter gives, for the same table, to the
+   same declarations WITHOUT their attributes, plus the attribute lines in front of the terminal enum and of each definition *)
+Theorem generate_attributes_and_nowhere_else ho digest src text :
+  generate_model ho digest src = Ok text ->
+  exists v t pre mid post bodies,
+    front_end src = Ok v /\ length bodies = length (vf_nts v) /\
+    text = (pre ++ attributes_src (vt_attrs (vf_tenum v)) ++ mid ++ join (nl ++ nl) (zip_attrs (vf_nts v) bodies) ++ post)%list /\
+    table_to_rust (fu_unique (fuels_for 0 v)) Gen.Template.file_template Gen.Template.template_consts t (strip_v v) digest
+      = Ok (pre ++ mid ++ join (nl ++ nl) bodies ++ post)%list.
+Proof.
+  unfold generate_model, generate_full. intros H.
+  apply bind_ok in H as ([out tx] & H & E). injection E as <-.
+  apply bind_ok in H as (v & Hv & H). apply bind_ok in H as ([m rt] & _ & H). apply bind_ok in H as (t & _ & H).
+  apply bind_ok in H as (text' & Ht & H). injection H as _ <-.
+  destruct (attributes_and_nowhere_else _ _ _ _ _ _ Ht) as (pre & mid & post & bodies & Hl & Htext & Hs).
+  exists v, t, pre, mid, post, bodies. auto.
 Qed.
